@@ -91,11 +91,22 @@ pub fn expand(text: &str, ci: usize) -> (Outcome, bool) {
         Err(_) => return (Outcome::NotLexable, false),
     };
     let members_ok_cell = std::cell::Cell::new(true);
+    let illegal_cfg_cell = std::cell::Cell::new(false);
     let r = catch_unwind(AssertUnwindSafe(|| match syn::parse2::<JoinInputDefault>(ts) {
         Err(e) => (Outcome::SynErr(e.to_string()), false),
         Ok(parsed) => {
             let members_ok = dots_are_members(&parsed);
             members_ok_cell.set(members_ok);
+            // a combination the documentation rules out: handler kind against macro kind, futures
+            // crate path on a macro that is not async
+            let (is_async, is_try, _) = CONFIGS[ci % 8];
+            illegal_cfg_cell.set(
+                match &parsed.handler {
+                    Some(join_impl::handler::Handler::Then(_)) => is_try,
+                    Some(_) => !is_try,
+                    None => false,
+                } || (parsed.futures_crate_path.is_some() && !is_async),
+            );
             let out = generate_join(&parsed, cfg(ci));
             if !members_ok {
                 return (Outcome::OutOfDomain, true);
@@ -113,7 +124,13 @@ pub fn expand(text: &str, ci: usize) -> (Outcome, bool) {
         Ok(o) => o,
         Err(p) => {
             let m = panic_text(p);
-            if m.contains("handler should be only provided") || m.contains("futures_crate_path should be only provided") {
+            // the generator rejects a configuration by panicking with a message (the compiler shows it
+            // as the macro's diagnostic). Recognised by its wording on the pinned tree, or - so that a
+            // reworded diagnostic is not taken for an internal panic - by its cause: the input *is* a
+            // ruled-out combination and the panic carries a message
+            // (the pinned generator unwraps an `Err(message)`, so the text starts with std's unwrap wording)
+            let by_cause = illegal_cfg_cell.get() && !m.trim().is_empty() && m != "<non-string panic>" && !m.contains("This's a bug");
+            if m.contains("handler should be only provided") || m.contains("futures_crate_path should be only provided") || by_cause {
                 (Outcome::ConfigRejected(m), true)
             } else {
                 (Outcome::Panic(m), true)
